@@ -4,8 +4,9 @@
      CONTRACT ok | bad@<k> <clause> <call name> {, bad@...}      Contract.monitor (first breach) /
                                                                    with --all: Contract.monitor_all
      ## DOMSPEC ok | bad                                          DomSpec.contract_run on the sinkop sub-list
-     ## SKEL ok | <faults>                                        Skeleton.skeleton_ok / skeleton_faults on the final DOM
+     ## SKEL ok | <faults> | -                                    Skeleton.skeleton_ok / skeleton_faults on the final DOM
      ## TREE <forest> | Q <quirks>                                the final abstract DOM (text of rcdom_driver.ml)
+                                                                  (both `-` when the contract was breached)
      ## GC ok | bad@<segment>.<call> h<handle> | off              Gc.gc_check        (only with --gc)
      ## COLLECTED n,n,...                                         Gc.gc_counts       (only with --gc)
    <k> counts the calls of the trace without the marker lines, from 0. *)
@@ -193,12 +194,15 @@ let () =
           (match monitor init cs with None -> "ok" | Some v -> show v) in
       let domspec = if contract_run init (ops_of cs) then "ok" else "bad" in
       let d = run_calls init cs in
+      (* after a breach the abstract DOM may be cyclic: neither printed nor judged *)
+      let accepted = (contract = "ok") in
       let skel =
-        if skeleton_ok d then "ok"
+        if not accepted then "-"
+        else if skeleton_ok d then "ok"
         else (match skeleton_faults d with
             | [] -> "INCONSISTENT"
             | l -> String.concat " " (List.map (fault_name d) l)) in
-      let tree = Printf.sprintf "%s | Q %s" (tree_string d) (quirks_name d.d_quirks) in
+      let tree = Printf.sprintf "%s | Q %s" (if accepted then tree_string d else "-") (quirks_name d.d_quirks) in
       let gc, counts =
         if not want_gc then "off", "-" else begin
           (* segments: calls up to each marker with the handles traced there; the calls after the last marker
